@@ -106,6 +106,7 @@ def parseV? (s : String) : Option VExpr :=
   | 'n' :: r => (String.ofList r).toNat?.map .n
   | 'p' :: r => (String.ofList r).toNat?.map .p
   | 't' :: r => (String.ofList r).toNat?.map .t
+  | 'b' :: r => (String.ofList r).toNat?.map .b
   | _ => none
 
 def parseF? (s : String) : Option (Option Nat) :=
@@ -121,6 +122,10 @@ def takeVs : Nat → List String → Option (List VExpr × List String)
 
 def combKind? : String → Option CombKind
   | "all" => some .all | "aset" => some .allSettled | "race" => some .race | "any" => some .any
+  | _ => none
+
+def combKindC? : String → Option CombKind
+  | "allC" => some .all | "asetC" => some .allSettled | "raceC" => some .race | "anyC" => some .any
   | _ => none
 
 /-- Parse one action from the token list. -/
@@ -139,10 +144,19 @@ def parseAct? : List String → Option (Act × List String)
   | "int" :: r => some (.interrupt, r)
   | "await" :: v :: r => do return (.await (← parseV? v) false, r)
   | "awaitt" :: v :: r => do return (.await (← parseV? v) true, r)
-  | kind :: d :: n :: r => do
-    let kd ← combKind? kind
-    let (vs, r') ← takeVs (← parseNat? n) r
-    return (.comb kd (← parseNat? d) vs, r')
+  | kind :: d :: x :: r =>
+    match combKind? kind with
+    | some kd => do
+      let (vs, r') ← takeVs (← parseNat? x) r
+      return (.comb kd none (← parseNat? d) vs, r')
+    | none =>
+      -- allC / asetC / raceC / anyC  d cid n v*n : the combinator called on user-defined constructor C[cid]
+      match r with
+      | n :: r2 => do
+        let kd ← combKindC? kind
+        let (vs, r') ← takeVs (← parseNat? n) r2
+        return (.comb kd (some (← parseNat? x)) (← parseNat? d) vs, r')
+      | [] => none
   | _ => none
 
 /-- acts ';' compl   (fuel = token count). -/
@@ -167,6 +181,9 @@ def parseSection? (prog : Prog) (ts : List String) : Option Prog :=
     let b ← parseBody? (r.length + 1) r
     let gt ← if g == "-" then some none else (parseV? g).map some
     return { prog with thens := prog.thens ++ [(← parseNat? id, { slot := ← parseNat? slot, getterThrows := gt, body := b })] }
+  | ["C", id, kind, tid] => do
+    let plain ← if kind == "f" then some true else if kind == "s" then some false else none
+    return { prog with ctors := prog.ctors ++ [(← parseNat? id, { plain := plain, tid := ← parseNat? tid })] }
   | "R" :: r => do
     let b ← parseBody? (r.length + 1) r
     return { prog with segs := prog.segs ++ [.run b] }
